@@ -26,7 +26,8 @@ RULE = ('paths (exhaustive): every relative path of depth <=4 over segments {a, 
         'pretty-printer written from docs/backend_ref.rst and the docstrings (textwrap.fill is the documented '
         'wrapper), file bytes compared as UTF-8. manifest: every built-in backend configuration x generated '
         'specs, Compiler(output_manifest=True) and `stone.cli --output-manifest` versus the files a real '
-        'run creates. non-trivial: all paths; scripts with a brace sequence inside >=2 nested contexts or a '
+        'run creates (and, for configurations without template files, a manifest run into an output folder '
+        'that does not exist yet). non-trivial: all paths; scripts with a brace sequence inside >=2 nested contexts or a '
         'placeholder; specs with >=2 namespaces.')
 ASSUMPTIONS = ['The -d/--documentation options of the Swift / Obj-C type backends (which deliberately address '
                '../../../../.jazzy.json) are not part of the option sets.']
@@ -450,6 +451,20 @@ def run_manifest(case, rec):
             elif real is not None and sorted(set(man) - templates) != real:
                 viol('manifest-differs', 'manifest %s, real run created %s' % (
                     sorted(set(man) ^ set(real))[:5], 'the symmetric difference shown'))
+            if not templates and real is not None and man is not None:
+                # the same manifest run into an output folder that does not exist yet (seeded C18_10)
+                fresh_dir = os.path.join(base, 'fresh', 'manifest')
+                try:
+                    man2 = backends.run_backend(b, front.compile_specs(specs)[1], fresh_dir, manifest=True,
+                                                precreate=False).output_manifest()
+                    rec.note('manifest_fresh_folder_runs')
+                    if sorted(set(man2)) != real:
+                        viol('manifest-differs-fresh-folder', 'manifest run into a folder that does not exist yet '
+                             'reports %s, a real run created %s' % (sorted(set(man2))[:6], real[:6]))
+                    if os.path.isdir(fresh_dir) and backends.read_tree(fresh_dir):
+                        viol('manifest-run-wrote', 'a manifest run of %s into a fresh folder created files' % b)
+                except backends.BackendCrash as e:
+                    viol('crash-differs', 'real run ok, manifest run into a fresh folder %s' % e.tb.strip().split('\n')[-1][:100])
             if case['cli'] and real is not None and b == names[case['pick'] % len(names)]:
                 cli_manifest(rec, specs, b, real, templates, viol)
         finally:
